@@ -12,6 +12,9 @@
 (* Result caches are not part of this stage (they are switched off when the  *)
 (* model is compared with the code).                                         *)
 EXTENDS EQLMech
+CONSTANT RightKeepsLeftVars         \* TRUE: a binary operator requires the variables of its left operand of its right operand's
+                                    \* results as well (commit "fix: results of a right operand that differ in a variable of the
+                                    \* left operand ..."); FALSE: only what the operator's parent requires, as before
 CONSTANT AndLeftTrueNeedsFalseSet   \* TRUE: commit "fix: a true left operand of a conjunction ..."; FALSE: as before
 
 \* variables (slots) a built node mentions
@@ -36,6 +39,8 @@ DupCheck(st, key, b, req) ==
 
 \* Ev2(n, path, b, ywf, RT, RF, st): outputs in generator order and the seen-sets afterwards.
 \*   RT / RF: the variables the parent requires of this node's true / false outputs
+\* what the right operand is asked to keep in addition to what the operator's parent requires
+LeftVars(n) == IF RightKeepsLeftVars THEN NodeVars(n.l) ELSE {}
 RECURSIVE Ev2(_, _, _, _, _, _, _, _, _), AndFold(_, _, _, _, _, _, _, _, _, _, _), ElifFold(_, _, _, _, _, _, _, _, _, _, _),
           RightTrue(_, _, _, _, _, _, _, _)
 Ev2(n, path, b, ywf, RT, RF, st, q, W) ==
@@ -49,7 +54,7 @@ Ev2(n, path, b, ywf, RT, RF, st, q, W) ==
     [] n.k = "elif" ->
          LET L == Ev2(n.l, Append(path, 0), b, TRUE, RT, NodeVars(n.r) \cup RT \cup RF, st, q, W)
          IN IF L.outs = <<>>
-            THEN Ev2(n.r, Append(path, 1), b, ywf, RT, RF, L.st, q, W)
+            THEN Ev2(n.r, Append(path, 1), b, ywf, RT \cup LeftVars(n), RF \cup LeftVars(n), L.st, q, W)
             ELSE ElifFold(n, path, b, ywf, RT, RF, L.outs, 1, <<>>, L.st, <<q, W>>)
 
 AndFold(n, path, b, ywf, RT, RF, louts, i, acc, st, qw) ==
@@ -59,7 +64,7 @@ AndFold(n, path, b, ywf, RT, RF, louts, i, acc, st, qw) ==
        IN IF ywf /\ lo.f
           THEN LET d == DupCheck(st, <<path, FALSE>>, lb, RF)        \* a false left output, de-duplicated on what is required where AND is false
                IN AndFold(n, path, b, ywf, RT, RF, louts, i + 1, IF d.dup THEN acc ELSE Append(acc, Out(lb, TRUE)), d.st, qw)
-          ELSE LET R == Ev2(n.r, Append(path, 1), lb, ywf, RT, RF, st, qw[1], qw[2])
+          ELSE LET R == Ev2(n.r, Append(path, 1), lb, ywf, RT \cup LeftVars(n), RF \cup LeftVars(n), st, qw[1], qw[2])
                IN AndFold(n, path, b, ywf, RT, RF, louts, i + 1,
                           acc \o [j \in 1..Len(R.outs) |-> Out(MergeB(lb, R.outs[j].b), R.outs[j].f)], R.st, qw)
 
@@ -77,7 +82,7 @@ ElifFold(n, path, b, ywf, RT, RF, louts, i, acc, st, qw) ==
   ELSE LET lo == louts[i]
            lb == MergeB(b, lo.b)
        IN IF lo.f
-          THEN LET R == Ev2(n.r, Append(path, 1), lb, ywf, RT, RF, st, qw[1], qw[2])
+          THEN LET R == Ev2(n.r, Append(path, 1), lb, ywf, RT \cup LeftVars(n), RF \cup LeftVars(n), st, qw[1], qw[2])
                    T == RightTrue(path, RT, R.outs, lb, 1, <<>>, R.st, ywf)
                IN ElifFold(n, path, b, ywf, RT, RF, louts, i + 1, acc \o T.outs, T.st, qw)
           ELSE ElifFold(n, path, b, ywf, RT, RF, louts, i + 1, Append(acc, Out(lb, FALSE)), st, qw)
